@@ -415,6 +415,7 @@ Section Gridding.
   Definition as_limits (v : Val) : option Limits :=
     match v with
     | VNone => Some LimNone
+    | VNum a => Some (LimOne a)
     | VArr [a] => Some (LimOne a)
     | VSeq [VNum a] => Some (LimOne a)
     | VArr [a; b] => Some (LimTwo a b)
